@@ -70,7 +70,8 @@ def build(spec, fs_dir=None):
     kwargs = {}
     if spec.get("occupation") is not None:
         kwargs["occupation"] = np.array(spec["occupation"], dtype=float)
-    asym = AsymmetricUnit(els, np.array(spec["frac"], dtype=float), **kwargs)
+    labels = spec.get("labels")
+    asym = AsymmetricUnit(els, np.array(spec["frac"], dtype=float), labels=list(labels) if labels else None, **kwargs)
     c = Crystal(uc, sg, asym)
     via = spec.get("via")
     if not via:
@@ -232,11 +233,17 @@ def gen_spec(rng, kind=None):
         if rng.random() < 0.5:
             occupation = [rng.choice([1.0, 0.5, 0.25]) for _ in range(k)]
     via = rng.choice([None, None, "cif", "cif", "res", "poscar"])
+    labels = None
+    if rng.random() < 0.3:
+        # site labels as found in real files: suffixes, longer than SHELX's four characters
+        sufs = rng.choice([["A", "B", ""], ["_a", "_b"], ["A_2", "B_2", "X10"], ["long", ""]])
+        labels = ["%s%d%s" % (e, i + 1, rng.choice(sufs)) for i, e in enumerate(els)]
     quirks = None
     if via == "cif" and rng.random() < 0.3:
         quirks = rng.sample(CIF_QUIRKS, rng.randint(1, 2))
     return {
         "quirks": quirks,
+        "labels": labels,
         "kind": "synthetic",
         "content": kind,
         "sg": [int(number), choice],
@@ -252,6 +259,8 @@ def simplify_candidates(spec):
     """Smaller variants of a synthetic source for the minimiser."""
     if spec["kind"] != "synthetic":
         return
+    if spec.get("labels"):
+        yield dict(spec, labels=None)
     if spec.get("quirks"):
         yield dict(spec, quirks=None)
         for q in spec["quirks"]:
@@ -270,4 +279,6 @@ def simplify_candidates(spec):
         s["frac"] = spec["frac"][:i] + spec["frac"][i + 1 :]
         if spec.get("occupation") is not None:
             s["occupation"] = spec["occupation"][:i] + spec["occupation"][i + 1 :]
+        if spec.get("labels"):
+            s["labels"] = spec["labels"][:i] + spec["labels"][i + 1 :]
         yield s
